@@ -224,11 +224,20 @@ def _callee_names(b):
 
 
 def fingerprints(doc):
-    """{qname: sorted callee names} for the non-closure bodies of the crate (what `affcheck inventory` stores next to the inventory)."""
+    """{qname: sorted callee names} for the non-closure bodies of the crate (what `affcheck inventory` stores next to the inventory),
+    plus under '#params' the parameter names of every function by definition path."""
     out = {}
+    params = {}
     for b in doc['bodies']:
         if b['kind'] != 'Closure':
             out[_qname_of_dict(b)] = sorted(_callee_names(b))
+            names = {}
+            for d in b['debug']:
+                v = d['value']
+                if 'local' in v and not v['proj'] and 1 <= v['local'] <= b['arg_count']:
+                    names.setdefault(v['local'], d['name'])
+            params[b['path']] = [names.get(i) for i in range(1, b['arg_count'] + 1)]
+    out['#params'] = params
     return out
 
 
@@ -662,6 +671,7 @@ class Facts:
         self.inlined = apply_inlining(doc, _load_inventory())
         self.helper_paths = {h for _, h in self.inlined} | {c for _, c in self.desugared}
         self.adts = {a['path']: a for a in doc['adts']}
+        self.param_names = _load_fingerprints().get('#params', {})
         tinv = _load_type_inventory()
         self.transparent_adts = set() if tinv is None else {strip_generics(a['path']) for a in doc['adts'] if a['kind'] == 'Struct' and a['path'] not in tinv}
         self.all_bodies = [Body(self, b) for b in doc['bodies']]
@@ -799,6 +809,12 @@ class Body:
             v = d['value']
             if 'local' in v and not v['proj']:
                 self._names.setdefault(v['local'], d['name'])
+        # parameters are referred to by the names they had when the rule set was written (a renamed parameter is the same parameter)
+        known = getattr(facts, 'param_names', {}).get(self.path)
+        if known and len(known) == self.arg_count and self.kind != 'Closure':
+            for i, n in enumerate(known):
+                if n:
+                    self._names[i + 1] = n
         self._cfg = None
         self._dom = None
         self._defs = None
@@ -1655,11 +1671,56 @@ class Resolver:
 
 def literals(body, R, bb):
     """Guard literals that hold on entry of block bb: every dominating switch/assert outcome,
-    normalised to ('is', x, {variants}) | ('true', x) | ('false', x) | ('eq', x, v) | ('notin', x, {v..})."""
+    normalised to ('is', x, {variants}) | ('true', x) | ('false', x) | ('eq', x, v) | ('notin', x, {v..}).
+    Tests of materialised values are traced back to what made them so (see `derive`)."""
     out = []
     cfg = body.cfg()
     seen = set()
     work = [bb]
+
+    def derive(lit, depth=0):
+        """consequences of a literal about a value that was materialised in a temporary"""
+        e = lit[1]
+        if depth > 4 or not isinstance(e, tuple) or not e or e[0] != 'phi' or len(e) < 3:
+            return
+        if lit[0] in ('true', 'false'):
+            want = (lit[0] == 'true')
+            all_defs = body.defs().get(e[1], [])
+            defs_ = [(dbb, didx, R.def_expr(dbb, didx)) for (dbb, didx) in all_defs]   # a call result counts as assigned in the calling block
+            if not defs_:
+                return
+            if all(d[2][0] == 'const' and isinstance(d[2][1], bool) for d in defs_):
+                # `matches!(x, P)`: a test of the temporary implies the guards of the unique assignment that gave it the tested value
+                hits = [d[0] for d in defs_ if d[2] == ('const', want)]
+                if len(hits) == 1:
+                    work.append(hits[0])
+                return
+            # `let c = a && b;` lowers to c = phi(false | b) with `b` assigned under the guard `a`: c being true means b was true where it
+            # was assigned (dually for `||` and a false test); also the boolean result of a grafted helper with early `return false`s
+            others = [d for d in defs_ if d[2] != ('const', not want)]
+            if len(others) == 1 and len(others) < len(defs_):
+                dbb, didx, ex = others[0]
+                if ex != ('const', want):
+                    nl = norm_bool(ex, want)
+                    if (nl + (dbb,)) not in out:
+                        out.append(nl + (dbb,))
+                    derive(nl, depth + 1)
+                work.append(dbb)
+        elif lit[0] == 'is' and all(a[0] == 'agg' and isinstance(a[1], tuple) for a in e[2]):
+            # a variant test of a value that was built as one of several aggregates (an inlined helper returning Some(..) / None in
+            # different arms): the tested variant implies the guards of the unique arm that built it
+            wanted = [a for a in e[2] if a[1][2] in lit[2]]
+            if wanted and len(wanted) < len(e[2]):
+                hits = []
+                for (dbb, didx) in body.defs().get(e[1], []):
+                    if didx == 'term':
+                        continue
+                    d = R.def_expr(dbb, didx)
+                    if any(x == w for x in walk(d) for w in wanted):
+                        hits.append(dbb)
+                if len(hits) == 1:
+                    work.append(hits[0])
+
     while work:
         cur = work.pop()
         if cur in seen:
@@ -1671,45 +1732,7 @@ def literals(body, R, bb):
                 continue
             if (lit + (sb,)) not in out:
                 out.append(lit + (sb,))
-            # `matches!(x, P)` / `a && b` materialise a boolean in a temporary: a test of that temporary
-            # implies the guards of the unique assignment that gave it the tested value
-            e = lit[1]
-            if lit[0] in ('true', 'false') and e[0] == 'phi' and all(a[0] == 'const' and isinstance(a[1], bool) for a in e[2]):
-                want = (lit[0] == 'true')
-                hits = []
-                for (dbb, didx) in body.defs().get(e[1], []):
-                    if didx != 'term' and R.def_expr(dbb, didx) == ('const', want):
-                        hits.append(dbb)
-                if len(hits) == 1:
-                    work.append(hits[0])
-            # `let c = a && b;` lowers to c = phi(false | b) with `b` assigned under the guard `a`: c being true means b was true where it was
-            # assigned (dually for `||` and a false test)
-            elif lit[0] in ('true', 'false') and e[0] == 'phi' and len(e) > 2:
-                want = (lit[0] == 'true')
-                defs_ = [(dbb, didx, R.def_expr(dbb, didx)) for (dbb, didx) in body.defs().get(e[1], []) if didx != 'term']
-                if len(defs_) == len(body.defs().get(e[1], [])) and defs_:
-                    others = [d for d in defs_ if d[2] != ('const', not want)]
-                    if len(others) == 1 and len(others) < len(defs_):
-                        dbb, didx, ex = others[0]
-                        if ex != ('const', want):
-                            nl = norm_bool(ex, want) + (dbb,)
-                            if nl not in out:
-                                out.append(nl)
-                        work.append(dbb)
-            # a variant test of a value that was built as one of several aggregates (an inlined helper returning Some(..) / None in
-            # different arms): the tested variant implies the guards of the unique arm that built it
-            if lit[0] == 'is' and e[0] == 'phi' and len(e) > 2 and all(a[0] == 'agg' and isinstance(a[1], tuple) for a in e[2]):
-                wanted = [a for a in e[2] if a[1][2] in lit[2]]
-                if wanted and len(wanted) < len(e[2]):
-                    hits = []
-                    for (dbb, didx) in body.defs().get(e[1], []):
-                        if didx == 'term':
-                            continue
-                        d = R.def_expr(dbb, didx)
-                        if any(x == w for x in walk(d) for w in wanted):
-                            hits.append(dbb)
-                    if len(hits) == 1:
-                        work.append(hits[0])
+            derive(lit)
     return out
 
 
